@@ -123,7 +123,16 @@ def _uninstall_eval():
 
 
 def _exc_names(c) -> tuple:
+    if 'names' in c:
+        return exc.SAMPLES[c['names']]
     return exc.QUICK if c.get('quick') else exc.NAMES
+
+
+def _names_text(sample: str) -> str:
+    if sample == 'all':
+        return ('every exception class of the catalogue (%d: all Exception subclasses of builtins, Exception, re.error, an unknown '
+                'class)' % exc.N)
+    return 'the sample %s of the exception catalogue' % (list(exc.SAMPLES[sample]),)
 
 
 def _pre_k1(kind: int, sel: int, n: int) -> bool:
@@ -557,12 +566,21 @@ def _template_ok(rx: str, repl: str) -> bool:
     return True
 
 
+RX_QUICK = ('a', '(a)(b)?', '(?P<n>x)|y', '', '[', '(', 'a{2,1}', '\\')
+REPL_QUICK = ('X', '\\1', '\\g<n>', '\\6', '\\', '\\n')
+TEXTS_QUICK = ('', 'ab\n', 'a\nb')
+
+
 def _pre_k3_replace(r: int, p: int, t: int, preserve: bool, selection: bool) -> bool:
     if not (0 <= r < len(RX) and 0 <= p < len(REPL) and 0 <= t < len(TEXTS)):
         return False
-    lo, hi = ob.case()['rx']
+    c = ob.case()
+    lo, hi = c['rx']
     if not (lo <= r < hi):
         return False
+    if c.get('quick'):
+        if selection or ob.pick(RX, r) not in RX_QUICK or ob.pick(REPL, p) not in REPL_QUICK or ob.pick(TEXTS, t) not in TEXTS_QUICK:
+            return False
     if ob.excluded(REGION_REPLACE_TEMPLATE):
         rx, repl = ob.pick(RX, r), ob.pick(REPL, p)
         if _compiles(rx) and not _template_ok(rx, repl):
@@ -673,10 +691,17 @@ def _k5_cells():
 HARD = 'HardErrorException'
 
 
+K5_QUICK_CELLS = (('conf', 'main', 0), ('act', 'parse', 0), ('setup', 'sym', 0), ('assert', 'pre', 0), ('setup', 'main', 0),
+                  ('ba', 'post', 0), ('act', 'prepare', 0), ('act', 'execute', 0), ('ba', 'main', 0), ('assert', 'main', 0),
+                  ('cleanup', 'main', 0))
+
+
 def _pre_k5_exe(cell: int, sel: int) -> bool:
     c = ob.case()
     lo, hi = c['cells']
     if not (lo <= cell < hi and -1 <= sel < exc.N):
+        return False
+    if c.get('quick') and ob.pick(_k5_cells(), cell) not in K5_QUICK_CELLS:
         return False
     if sel >= 0 and ob.pick(exc.NAMES, sel) not in _exc_names(c):
         return False
@@ -980,6 +1005,9 @@ def k6_cli(i: int) -> bool:
         exp = g.MISTAKE  # seeded oracle error: every mutant is claimed to be a mistake
     case, first, use_line = g.case_text(phase, text, act, use=use)
     r = cli.run_cli(case)
+    import os, sys
+    if os.environ.get('VSYM_DEBUG'):
+        sys.stderr.write('DEBUG %r %r %r\n%s\n' % (i, r['rc'], r['exc'], r['stderr']))
     if not documented_outcome(r):
         return ob.post(False)
     ident, err = r['ident'], r['stderr']
@@ -1189,28 +1217,23 @@ def obligations(tier: str) -> List[Ob]:
     obs.append(Ob(name='K1:site:seeded-oracle-error', fn='k1_site', case=dict(quick=True, site='timeout', oracle_bug=True, n_bound=3),
                   kernel='K1', bound='seeded: timeout = 0 is claimed to be a validation error', timeout=600, expect=ob.REFUTE))
     # ---- K2
-    k2_cases = []
-    maxlen = 3 if quick else 4
-    for n in range(0, maxlen + 1):
-        if n <= 2:
-            k2_cases.append(('i', n))
-        elif n == 3:
-            for ch in K2_ALPHABET:
-                k2_cases.append(('i' + ch, n - 1))
-        else:
-            for a in K2_ALPHABET:
-                for b in K2_ALPHABET:
-                    k2_cases.append(('i' + a + b, n - 2))
-    k2_cases.append(('x', 1))
-    k2_cases.append(('', 2))
-    for prefix, n in k2_cases:
-        obs.append(Ob(name='K2:%r+%d' % (prefix, n), fn='k2_dictionary_parser', case=dict(prefix=prefix, n=n, quick=quick), kernel='K2',
+    k2_cases = [('i', 0, 'all'), ('i', 1, 'quick' if quick else 'all'), ('i', 2, 'mini' if quick else 'quick'), ('x', 1, 'mini'),
+                ('', 1, 'mini')]
+    if not quick:
+        k2_cases.append(('', 2, 'mini'))
+        for ch in K2_ALPHABET:
+            k2_cases.append(('i' + ch, 2, 'mini' if ch in 'ix' else 'quick'))
+        for a in ' \n':
+            for b in K2_ALPHABET:
+                k2_cases.append(('i' + a + b, 2, 'mini'))
+    for prefix, n, sample in k2_cases:
+        obs.append(Ob(name='K2:%r+%d' % (prefix, n), fn='k2_dictionary_parser', case=dict(prefix=prefix, n=n, names=sample), kernel='K2',
                       bound='source `lead` newline %r followed by exactly %d characters of {i, x, space, newline}; the stub parser '
                             'consumes 0..2 lines and 0..len+1 characters, then returns / reports invalid arguments / raises %s'
-                            % (prefix, n, names),
-                      timeout=900, real=REAL_K2, stubs=(STUB_K2_PARSER, STUB_EXC),
+                            % (prefix, n, _names_text(sample)),
+                      timeout=1200, real=REAL_K2, stubs=(STUB_K2_PARSER, STUB_EXC),
                       entry='InstructionParserForDictionaryOfInstructions.parse'))
-    obs.append(Ob(name='K2:seeded-oracle-error', fn='k2_dictionary_parser', case=dict(prefix='i', n=2, quick=True, oracle_bug=True),
+    obs.append(Ob(name='K2:seeded-oracle-error', fn='k2_dictionary_parser', case=dict(prefix='i', n=2, names='mini', oracle_bug=True),
                   kernel='K2', bound='seeded: only the first line is ever reported', timeout=600, expect=ob.REFUTE))
     # ---- K3
     obs.append(Ob(name='K3:validator', fn='k3_regex_validator', case=dict(quick=quick), kernel='K3', selector=True,
@@ -1219,25 +1242,27 @@ def obligations(tier: str) -> List[Ob]:
     obs.append(Ob(name='K3:validator:seeded-oracle-error', fn='k3_regex_validator', case=dict(quick=True, oracle_bug=True),
                   kernel='K3', selector=True, bound='seeded: -ignore-case is claimed not to reach compile', timeout=300,
                   expect=ob.REFUTE))
-    for lo, hi in _chunks(len(RX), 2 if not quick else 4):
-        obs.append(Ob(name='K3:replace:%d-%d' % (lo, hi - 1), fn='k3_replace', case=dict(rx=(lo, hi)), kernel='K3', selector=True,
-                      bound='`replace [-at line-num >= 1] [-preserve-new-lines] REGEX STRING` with REGEX in %s, STRING in %s, applied to '
-                            'each of the texts %s' % (list(RX[lo:hi]), list(REPL), list(TEXTS)),
+    for lo, hi in _chunks(len(RX), 2 if not quick else 5):
+        rxs = [x for x in RX[lo:hi] if not quick or x in RX_QUICK]
+        obs.append(Ob(name='K3:replace:%d-%d' % (lo, hi - 1), fn='k3_replace', case=dict(rx=(lo, hi), quick=quick), kernel='K3', selector=True,
+                      bound='`replace %s[-preserve-new-lines] REGEX STRING` with REGEX in %s, STRING in %s, applied to '
+                            'each of the texts %s' % ('' if quick else '[-at line-num >= 1] ', rxs, list(REPL_QUICK if quick else REPL),
+                                                      list(TEXTS_QUICK if quick else TEXTS)),
                       timeout=1200, real=REAL_K3_REPLACE, entry='parse_string_transformer.parsers().full -> validator -> transform',
                       outside=('which patterns and templates `re` accepts (taken from `re` itself)',)))
     obs.append(Ob(name='K3:replace:seeded-oracle-error', fn='k3_replace', case=dict(rx=(0, 1), oracle_bug=True), kernel='K3',
                   selector=True, bound='seeded: a valid pattern is claimed to be rejected', timeout=300, expect=ob.REFUTE))
     # ---- K5
     ncells = len(_k5_cells())
-    for lo, hi in _chunks(ncells, 9 if quick else 3):
-        obs.append(Ob(name='K5:executor:cells%d-%d' % (lo, hi - 1), fn='k5_executor', case=dict(quick=quick, cells=(lo, hi)), kernel='K5',
-                      selector=True,
-                      bound='a stub step (cells %d..%d of: conf main; act parse; symbols / pre-sandbox validation / main / post-setup '
-                            'validation of setup, act, before-assert, assert, cleanup; act prepare, execute) raises '
-                            'HardErrorException or %s' % (lo, hi - 1, names),
+    k5_sample = 'mini' if quick else 'all'
+    for lo, hi in _chunks(ncells, 11 if quick else 2):
+        cells = [c for c in _k5_cells()[lo:hi] if not quick or c in K5_QUICK_CELLS]
+        obs.append(Ob(name='K5:executor:cells%d-%d' % (lo, hi - 1), fn='k5_executor', case=dict(quick=quick, names=k5_sample, cells=(lo, hi)),
+                      kernel='K5', selector=True,
+                      bound='the stub step %s raises HardErrorException or %s' % (cells, _names_text(k5_sample)),
                       timeout=1500, real=REAL_K5, stubs=('stub instructions / actor (vsym.exeharness)', STUB_EXC),
                       entry='full_execution.execute -> print_error_message_for_full_result'))
-    obs.append(Ob(name='K5:executor:seeded-oracle-error', fn='k5_executor', case=dict(quick=True, cells=(5, 6), oracle_bug=True),
+    obs.append(Ob(name='K5:executor:seeded-oracle-error', fn='k5_executor', case=dict(names='mini', cells=(5, 6), oracle_bug=True),
                   kernel='K5', selector=True, bound='seeded: HardErrorException is claimed to give INTERNAL_ERROR', timeout=300,
                   expect=ob.REFUTE))
     obs.append(Ob(name='K5:unit', fn='k5_unit', case={}, kernel='K5', selector=True,
@@ -1246,11 +1271,11 @@ def obligations(tier: str) -> List[Ob]:
                   timeout=600, real=REAL_K5[:6], stubs=(STUB_EXC,)))
     obs.append(Ob(name='K5:unit:seeded-oracle-error', fn='k5_unit', case=dict(oracle_bug=True), kernel='K5', selector=True,
                   bound='seeded: an arbitrary exception is claimed to give HARD_ERROR', timeout=300, expect=ob.REFUTE))
-    obs.append(Ob(name='K5:processor', fn='k5_processor', case=dict(quick=quick), kernel='K5', selector=True,
+    obs.append(Ob(name='K5:processor', fn='k5_processor', case=dict(names=k5_sample), kernel='K5', selector=True,
                   bound='reader / preprocessor / parser / transformer / executor raises %s; the result is reported by the real '
-                        'reporter' % names,
+                        'reporter' % _names_text(k5_sample),
                   timeout=900, real=REAL_K5_PROC, stubs=('stub reader, preprocessor, parser, transformer, executor', STUB_EXC)))
-    obs.append(Ob(name='K5:processor:seeded-oracle-error', fn='k5_processor', case=dict(quick=True, oracle_bug=True), kernel='K5',
+    obs.append(Ob(name='K5:processor:seeded-oracle-error', fn='k5_processor', case=dict(names='mini', oracle_bug=True), kernel='K5',
                   selector=True, bound='seeded: exit code 0 is claimed for an internal error', timeout=300, expect=ob.REFUTE))
     # ---- K6
     level = 0 if quick else 1
